@@ -10,9 +10,9 @@ TBackend == FieldSet("Routed", "b")
 RoutedTo(r) == Trace[CHOOSE k \in 1..TLen : Trace[k].ev = "Routed" /\ Trace[k].r = r].b
 TBackendOf == [r \in TReq |-> RoutedTo(r)]
 
-VARIABLES cst, stored, completed, response, listed, fetched, resp, got, l
-A == INSTANCE AppRelay WITH Req <- TReq, Backend <- TBackend, BackendOf <- TBackendOf, SharedResponseKey <- FALSE
-av == <<cst, stored, completed, response, listed, fetched, resp, got>>
+VARIABLES cst, stored, completed, response, listed, fetched, resp, got, old, seen, l
+A == INSTANCE AppRelay WITH Req <- TReq, Backend <- TBackend, BackendOf <- TBackendOf, SharedResponseKey <- FALSE, ShortRetention <- FALSE
+av == <<cst, stored, completed, response, listed, fetched, resp, got, old, seen>>
 Is(e) == l <= TLen /\ Trace[l].ev = e
 E == Trace[l]
 Step == l' = l + 1 /\ Mark(l)
@@ -46,7 +46,10 @@ TOther == (Is("ClientSent") \/ Is("RespondEnd")) /\ Same
 \* at the end every client has been answered with its own response and nothing is pending
 TFinal == Is("RelayFinal") /\ Same /\ (\A r \in TReq : cst[r] # "new" => (cst[r] = "done" /\ got[r] = r /\ resp[r] = "done"))
                /\ Step
-TNext == TReset \/ TRouted \/ TPutReq \/ TRespVisible \/ TQuery \/ TFetch \/ TRespondBegin \/ TClientRecv \/ TOther \/ TFinal
+\* many overlapping exchanges without per-operation events: every client got the answer to its own request
+TStress == Is("RelayStress") /\ Same /\ E.requests > 0 /\ E.wrong = 0 /\ E.unanswered = 0
+               /\ Step
+TNext == TStress \/ TReset \/ TRouted \/ TPutReq \/ TRespVisible \/ TQuery \/ TFetch \/ TRespondBegin \/ TClientRecv \/ TOther \/ TFinal
 TSpec == TInit /\ [][TNext]_<<av, l>>
 
 FetchIsRequest == A!FetchIsRequest
